@@ -132,7 +132,7 @@ theorem covered_mem (fst : Bool) (m : MemA) (hm : MemOk m) : CoveredOp true fst 
   · intro gs hgs
     have := goodOp_mem m hm gs hgs
     cases fst with
-    | true => exact this
+    | true => exact this.toFirst
     | false => exact this.notFirst
   · simp [processOperand, processMemory_memTok m hm, expectOp]
 
